@@ -2031,7 +2031,9 @@ class ImportManager:
         for statement in imports)
     self.imports = []
     self.module_selectors = {}
-    self.names = set()
+    # Under dynamic registration `gin` is a reserved symbol: an import that
+    # would bind it (recorded by a file without the feature) gets an alias.
+    self.names = {'gin'} if self.dynamic_registration else set()
     # `__gin__` feature statements first (they must never be re-aliased), then
     # by module, preferring to order `from` style imports first.
     for statement in sorted(
